@@ -51,6 +51,15 @@ MUTATIONS = {
     'closed_closed_subset_instead_of_equal': (
         "      if set(concrete_a) == set(concrete_b):\n",
         "      if set(concrete_a) <= set(concrete_b):\n"),
+    'close_record_on_alias_not_root': (
+        "    a = self\n    while a.WeMustGoDeeper():\n      a = a.target\n"
+        "    if isinstance(a.target, BadType):\n      return\n"
+        "    assert isinstance(a.target, dict), a.target\n"
+        "    a.target = ClosedRecord(a.target)\n",
+        "    a = self\n    while a.WeMustGoDeeper():\n      a = a.target\n"
+        "    if isinstance(a.target, BadType):\n      return\n"
+        "    assert isinstance(a.target, dict), a.target\n"
+        "    self.target = ClosedRecord(a.target)\n"),
     'list_element_clash_ignored': (
         "      if a_element.TargetTypeClassName() == 'BadType':\n",
         "      if False:\n"),
